@@ -153,6 +153,28 @@ def fix_atomic_specifiers(
     return decl
 
 
+def _copy_declarator_chain(node: Any) -> Any:
+    """Copies the derivations of a type (pointer / array / function nodes down
+    to and including the innermost TypeDecl and a plain IdentifierType below
+    it). A struct / union / enum specifier below the TypeDecl is shared with
+    the original, as it is between the declarators of an ordinary declaration;
+    copying it too would make the work (and the tree) double with every
+    nesting level of _Atomic(struct {...}) a, b.
+    """
+    head = cur = copy.copy(node)
+    while True:
+        if hasattr(cur, "quals"):
+            cur.quals = cur.quals[:]
+        if isinstance(cur, c_ast.TypeDecl):
+            if isinstance(cur.type, c_ast.IdentifierType):
+                cur.type = c_ast.IdentifierType(cur.type.names[:], cur.type.coord)
+            return head
+        if not hasattr(cur, "type"):
+            return head
+        cur.type = copy.copy(cur.type)
+        cur = cur.type
+
+
 def _fix_atomic_specifiers_once(
     decl: c_ast.Decl | c_ast.Typedef,
 ) -> Tuple[c_ast.Decl | c_ast.Typedef, bool]:
@@ -179,7 +201,7 @@ def _fix_atomic_specifiers_once(
     assert grandparent is not None
     # The specifier node is shared by all the declarators of a declaration:
     # splice a copy, so that each declarator gets its own type (and name).
-    inner = copy.deepcopy(node.type)
+    inner = _copy_declarator_chain(node.type)
     if inner.coord is None:
         # Preserve the declarator coord for _Atomic(T) so TypeDecl doesn't lose
         # its location when we replace the wrapper Typename.
